@@ -132,8 +132,15 @@ func mk(op string, args ...*Term) *Term {
 
 // termBuilder converts SSA values of one function.
 type termBuilder struct {
-	subst map[ssa.Value]*Term
-	depth int
+	subst  map[ssa.Value]*Term
+	depth  int
+	inline bool // pure straight-line helpers of the module are inlined into the term
+}
+
+// newInliningTermBuilder: terms see through small pure helpers (used where two functions must agree on a formula that
+// may have been factored out into a helper type).
+func newInliningTermBuilder() *termBuilder {
+	return &termBuilder{subst: map[ssa.Value]*Term{}, inline: true}
 }
 
 func newTermBuilder() *termBuilder { return &termBuilder{subst: map[ssa.Value]*Term{}} }
@@ -194,7 +201,16 @@ func (tb *termBuilder) of(v ssa.Value) *Term {
 			return tb.addr(x.X)
 		}
 		return mk("u"+x.Op.String(), tb.of(x.X))
+	case *ssa.Extract:
+		if c, ok := x.Tuple.(*ssa.Call); ok {
+			if rs := tb.inlineCall(c); rs != nil && x.Index < len(rs) {
+				return rs[x.Index]
+			}
+		}
 	case *ssa.Call:
+		if rs := tb.inlineCall(x); len(rs) == 1 {
+			return rs[0]
+		}
 		if c := x.Call.StaticCallee(); c != nil {
 			var as []*Term
 			for _, a := range x.Call.Args {
@@ -219,7 +235,11 @@ func (tb *termBuilder) of(v ssa.Value) *Term {
 	case *ssa.Field:
 		st, _ := x.X.Type().Underlying().(*types.Struct)
 		if st != nil {
-			return mk("field:"+st.Field(x.Field).Name(), tb.of(x.X))
+			base := tb.of(x.X)
+			if strings.HasPrefix(base.Op, "struct:") && x.Field < len(base.Args) {
+				return base.Args[x.Field] // field of a struct value built on the spot
+			}
+			return mk("field:"+st.Field(x.Field).Name(), base)
 		}
 	case *ssa.Phi:
 		return tVar("phi:" + x.Comment + ":" + x.Name())
@@ -230,11 +250,25 @@ func (tb *termBuilder) of(v ssa.Value) *Term {
 // addr renders a load from an address.
 func (tb *termBuilder) addr(a ssa.Value) *Term {
 	switch x := a.(type) {
+	case *ssa.Alloc:
+		if t := tb.structLit(x); t != nil {
+			return t
+		}
 	case *ssa.FieldAddr:
 		st := derefStruct(x.X.Type())
 		n := "?"
 		if st != nil {
 			n = st.Field(x.Field).Name()
+		}
+		// a local copy of a struct value (spilled value receiver / parameter): the field of the value stored into it
+		if al, ok := x.X.(*ssa.Alloc); ok {
+			if v := wholeStore(al); v != nil {
+				base := tb.of(v)
+				if strings.HasPrefix(base.Op, "struct:") && x.Field < len(base.Args) {
+					return base.Args[x.Field]
+				}
+				return mk("field:"+n, base)
+			}
 		}
 		return mk("field:"+n, tb.of(x.X))
 	case *ssa.IndexAddr:
@@ -253,4 +287,128 @@ func isUnsigned(t types.Type) bool {
 func isIntegral(t types.Type) bool {
 	b, ok := t.Underlying().(*types.Basic)
 	return ok && b.Info()&types.IsInteger != 0
+}
+
+// inlineCall: the results of a call of a small pure helper of the module, as terms over the caller's values. A helper
+// qualifies when it is straight-line code (one block) without stores other than building a struct literal, without
+// calls of functions that are not themselves terms; nil when the call is not inlined.
+func (tb *termBuilder) inlineCall(x *ssa.Call) []*Term {
+	if !tb.inline || x.Call.IsInvoke() || tb.depth > 24 {
+		return nil
+	}
+	c := x.Call.StaticCallee()
+	if c == nil {
+		return nil
+	}
+	if _, isClosure := x.Call.Value.(*ssa.MakeClosure); isClosure {
+		return nil
+	}
+	o := origin(c)
+	if o == nil || o.Pkg == nil || !strings.HasPrefix(o.Pkg.Pkg.Path(), modPath) || len(o.Blocks) != 1 || len(o.Params) != len(x.Call.Args) {
+		return nil
+	}
+	var ret *ssa.Return
+	for _, in := range o.Blocks[0].Instrs {
+		switch y := in.(type) {
+		case *ssa.Return:
+			ret = y
+		case *ssa.Store:
+			// only stores into a local struct literal, or the spill of a struct value into a local
+			if _, ok := y.Addr.(*ssa.Alloc); ok {
+				continue
+			}
+			fa, ok := y.Addr.(*ssa.FieldAddr)
+			if !ok {
+				return nil
+			}
+			if _, ok := fa.X.(*ssa.Alloc); !ok {
+				return nil
+			}
+		case *ssa.Go, *ssa.Defer, *ssa.MapUpdate, *ssa.Send, *ssa.Panic, *ssa.RunDefers:
+			return nil
+		case *ssa.Call:
+			if y.Call.IsInvoke() {
+				continue // node / hasher accessors stay opaque terms
+			}
+			if cal := y.Call.StaticCallee(); cal != nil && isAtomicOrSync(cal) {
+				return nil
+			}
+		}
+	}
+	if ret == nil || len(ret.Results) == 0 {
+		return nil
+	}
+	child := &termBuilder{subst: map[ssa.Value]*Term{}, depth: tb.depth + 1, inline: true}
+	for i, p := range o.Params {
+		child.subst[p] = tb.of(x.Call.Args[i])
+	}
+	var out []*Term
+	for _, r := range ret.Results {
+		out = append(out, child.of(r))
+	}
+	return out
+}
+
+func isAtomicOrSync(f *ssa.Function) bool {
+	if f.Pkg == nil {
+		return false
+	}
+	p := f.Pkg.Pkg.Path()
+	return p == "sync" || p == "sync/atomic"
+}
+
+// structLit: a load of a local struct that was built field by field right there (composite literal).
+func (tb *termBuilder) structLit(a *ssa.Alloc) *Term {
+	pt, ok := a.Type().Underlying().(*types.Pointer)
+	if !ok {
+		return nil
+	}
+	st, ok := pt.Elem().Underlying().(*types.Struct)
+	if !ok || a.Parent() == nil {
+		return nil
+	}
+	fields := make([]*Term, st.NumFields())
+	for _, b := range a.Parent().Blocks {
+		for _, in := range b.Instrs {
+			s, ok := in.(*ssa.Store)
+			if !ok {
+				continue
+			}
+			fa, ok := s.Addr.(*ssa.FieldAddr)
+			if !ok || fa.X != ssa.Value(a) {
+				continue
+			}
+			if fields[fa.Field] != nil {
+				return nil // written twice: not a plain literal
+			}
+			fields[fa.Field] = tb.of(s.Val)
+		}
+	}
+	for i := range fields {
+		if fields[i] == nil {
+			fields[i] = tConst(0)
+		}
+	}
+	return mk("struct:"+namedTypeName(pt.Elem()), fields...)
+}
+
+// wholeStore: the single value stored into a local as a whole (*alloc = v), nil when there is none or several.
+func wholeStore(a *ssa.Alloc) ssa.Value {
+	var v ssa.Value
+	n := 0
+	if a.Parent() == nil {
+		return nil
+	}
+	for _, b := range a.Parent().Blocks {
+		for _, in := range b.Instrs {
+			if s, ok := in.(*ssa.Store); ok && s.Addr == ssa.Value(a) {
+				v = s.Val
+				n++
+			}
+		}
+	}
+	if n != 1 {
+		return nil
+	}
+	return v
 }
